@@ -14,6 +14,7 @@
 -/
 import ClairModel.Lib.Sm
 import ClairModel.Proofs.IndexerFF
+import ClairModel.Proofs.ScanPar
 import ClairModel.Gen.Controller
 
 namespace ClairModel.Props.C07
@@ -68,6 +69,17 @@ theorem other_manifests_untouched (sem : Sem) (o : Oracle) (cfg : Cfg) (m m' : M
     (index sem o cfg m st d).st.report? m' = st.report? m' ∧
     ∀ s, (m', s) ∈ (index sem o cfg m st d).st.scannedManifest ↔ (m', s) ∈ st.scannedManifest :=
   ⟨(index_spec sem o cfg m st d hi).frame.report m' hne, fun s => (index_spec sem o cfg m st d hi).frame.scanned m' s hne⟩
+
+/-- `LayerScanner.Scan` with any number of scanner goroutines (Model/ScanPar):
+    every goroutine runs the `scanLayer` program for its (layer, scanner) pair,
+    the store calls are atomic and interleave arbitrarily, each call may
+    succeed, fail, or take effect and fail. Whatever the interleaving and the
+    failures, the store invariant is kept: in particular a layer is never
+    marked scanned before all of that scanner's artifacts for it are stored. -/
+theorem scan_interleavings_keep_invariant (sem : Sem) (st : Store) (hi : Inv sem st)
+    (ps : List (Layer × Scanner)) (ops : List ScanPar.POp) :
+    Inv sem (Sm.run (ScanPar.step sem) (ScanPar.spawn st ps) ops).st :=
+  (ScanPar.pinv_run sem ops _ (ScanPar.pinv_spawn sem st ps hi)).inv
 
 /-! ## The reporting half -/
 
